@@ -142,7 +142,7 @@ class StreamProp(E2Prop):
                 if self.seg_all and chunks and rng.random() < 0.3:
                     pre, chunks = chunks[0], chunks[1:]
                 nreads = len(sc['frames']) + (len(chunks) if wb else 0) + 3
-                rbs = rng.choice([0, 1, 2, 5, 6, 13, 14, 15, 64, 4096, 131072]) if self.seg_all else 4096
+                rbs = rng.choice([0, 1, 2, 5, 6, 7, 8, 13, 14, 15, 64, 4096, 131072]) if (self.seg_all or rng.random() < 0.35) else 4096
                 line = gen_streams.reader_case('s%d_%d' % (i, j), sc['role'], chunks, nreads, au=sc['au'], rbs=rbs, pre=pre, wb_between=wb)
                 if rng.random() < 0.25:
                     # what is read does not depend on what the user does in between: own close, writes, flushes at random points
@@ -553,6 +553,13 @@ class C01(E2Prop):
                         if wbb: rds.append('e:wb')
                 out.append(ws.scase_line('r%d' % k, rrole, ['r'] * (len(msgs) + 2 + (len(rds) // 2 if wbb else 0)), rds, [], [], rbs=rbs,
                                          mms=None, mfs=None, au=(k % 3 == 0))); k += 1
+        # both directions at once: a Ping arrives, the user writes a Pong with another payload before anything was flushed - the
+        # user's message (not the automatic reply it supersedes) is what the peer must read
+        for role in 'sc':
+            for ping, pong in ((b'', b'x'), (b'ab', b'cd'), (b'p' * 125, b'q' * 125), (b'ab', b'')):
+                for extra in ([], ['wt:6869'], ['wb:0001']):
+                    ops = ['r', 'wpo:' + ws.hx(pong)] + extra + ['f', 'f']
+                    out.append(ws.scase_line('pp%d' % k, role, ops, ['d:' + ws.hx(gen_e2.peer_frame(role, 9, ping))], [], [], seed=rng.randint(0, 2**32 - 1))); k += 1
         for role in 'sc':
             for n_ in ((2**18 + 1,) if tier == 'quick' else (2**18, 2**18 + 1, 2**20 + 3)):
                 for wr in (['e:wb'], ['a:10', 'e:wb'], []):
@@ -560,6 +567,15 @@ class C01(E2Prop):
         return reid(self.corpus() + out)
     def monitor(self, case_line, trace, mline):
         case, ots = self.parse(case_line, trace)
+        if len(case.ops) >= 3 and case.ops[0] == 'r' and case.ops[1].startswith('wpo:') and ots and ots[0].res.startswith('ok:PI:'):
+            # ping read, user pong written before any flush: the wire carries the user's pong (then the other user messages), nothing else
+            wire, _ = ws.wire_of(ots)
+            frames, left = ws.parse_frames(wire)
+            want = [(10, ws.unhx(case.ops[1].split(':')[1]))] + [((1 if o.startswith('wt') else 2), ws.unhx(o.split(':')[1])) for o in case.ops[2:] if o[:2] in ('wt', 'wb')]
+            got = [(f.opcode, f.payload) for f in frames if f.complete]
+            if ots[-1].res == 'ok' and (got != want or left):
+                return 'user-pong-lost: after reading a ping the user wrote %r; the wire carries %r' % ([(a, b[:8]) for a, b in want], [(a, b[:8]) for a, b in got])
+            return monitors.mon_c09(case, ots)
         if case.ops and case.ops[0].startswith('w') and all(o == 'f' or o[:2] in ('wt', 'wb') or o[:3] in ('wpi', 'wpo') for o in case.ops):
             # writer case: a user pong parks in the slot; consecutive pongs replace each other before being queued
             sent = []
@@ -702,7 +718,7 @@ class C10(E2Prop):
                             out.append(ws.scase_line('a%d' % k, role, ['wb:' + ws.hx(payload), 'wt:6869', 'f', 'f', 'f'], [], wr, [], wbs=wbs)); k += 1
         for i in range(600 if tier == 'quick' else 10000):
             role = 'cs'[i % 2]
-            msgs = rand_msgs(rng, [0, 1, 5, 126, 300, 5000], rng.randint(1, 5))
+            msgs = rand_msgs(rng, [0, 1, 5, 126, 300, 5000] if i % 8 else [0, 125, 126, 65535, 65536, 65537], rng.randint(1, 5) if i % 8 else rng.randint(1, 2))
             ops = []
             for kd, p in msgs:
                 ops.append(msg_op(kd, p))
@@ -870,6 +886,10 @@ class C12(E2Prop):
                             for fl in ([], ['e:wb'], ['e:wb', 'e:wb']):
                                 ops = ['r'] + mid + [tail_op] * 5
                                 out.append(ws.scase_line('b%d' % k, role, ops, ['d:' + ws.hx(fr)], ['e:wb'] * nblock + ['a:100000'] * 6, fl + ['ok'] * 8)); k += 1
+                                if nblock == 1:
+                                    # the transport takes the first 1-3 bytes of the reply, then blocks: the retry sends the REST, not the whole frame again
+                                    for part in (1, 2, 3):
+                                        out.append(ws.scase_line('b%d' % k, role, ops, ['d:' + ws.hx(fr)], ['a:%d' % part, 'e:wb', 'a:1', 'e:wb'] + ['a:100000'] * 6, fl + ['ok'] * 8)); k += 1
         return reid(self.corpus() + out)
     def monitor(self, case_line, trace, mline):
         case, ots = self.parse(case_line, trace)
